@@ -100,12 +100,88 @@ def scenario(draw) -> Dict[str, Any]:
             'post_traffic': draw(st.integers(0, 3))}
 
 
+@st.composite
+def early_scenario(draw) -> Dict[str, Any]:
+    # async_close() requested a few event-loop iterations after the instance was created inside a running loop, i.e. while the engine
+    # is still creating its sockets (one or several): whatever is created late must be shut as well
+    return {'kind': 'early', 'jitter': draw(st.integers(0, 10**6)), 'iters': draw(st.integers(0, 9)),
+            'socks': draw(st.sampled_from(['v4', 'dual', 'v4x2', 'v4-split'])), 'browser': draw(st.booleans()),
+            'second_close_after_ms': draw(st.sampled_from([1000, 60000]))}
+
+
+def check_early(case: Dict[str, Any]) -> Dict[str, Any]:
+    from vlib.respsim import SOCKS
+
+    out: Dict[str, Any] = {}
+
+    async def main(w: sim.World) -> None:
+        from zeroconf.asyncio import AsyncServiceBrowser
+
+        p = w.add_host('P', socks=[('v4', '10.0.0.2')])
+        await p.zc.async_wait_for_start()
+        socks, single = SOCKS[case['socks']]
+        x = w.add_host('X', socks=socks, single=single)
+        plain = PlainListener(w, x)
+        x.zc.async_add_listener(plain, None)
+        lst = sim.RecListener(w, 'early')
+        if case['browser']:
+            AsyncServiceBrowser(x.zc, TYPES[0], listener=lst)
+        for _ in range(case['iters']):
+            await asyncio.sleep(0)
+        out['started_at_close'] = bool(x.zc.started)
+        exc = None
+        try:
+            await x.azc.async_close()
+        except BaseException as e:  # noqa
+            if isinstance(e, (HarnessError, KeyboardInterrupt)):
+                raise
+            exc = e
+        x.closed = True
+        w.gseq += 1
+        g_done = w.gseq
+        # the link stays busy: the peer registers a service (probes, announcements) and answers nothing in particular
+        task = await p.azc.async_register_service(sim.make_service_info(PEER_SVC))
+        await task
+        await asyncio.sleep(case['second_close_after_ms'] / 1000.0)
+        out.update(exc=exc, g_done=g_done, open_eps=[repr(ep.sock) for ep in x.endpoints if not ep.closed], n_eps=len(x.endpoints),
+                   plain_after=[c for c in plain.calls if c['g'] > g_done], cb_after=[e for e in lst.events if e['g'] > g_done],
+                   sent_after=[e for e in w.net.trace if e['host'] == 'X' and e['g'] > g_done],
+                   cache_names=len(x.zc.cache.cache))
+        await x.azc.async_close()
+        await asyncio.sleep(100.0)
+
+    with sim.World(jitter_seed=case['jitter']) as w:
+        w.run(main(w))
+        errors = list(w.errors)
+    det = {'iterations_before_close': case['iters'], 'socks': case['socks'], 'started_when_close_was_called': out['started_at_close'],
+           'endpoints': out['n_eps']}
+    if out['exc'] is not None:
+        raise Violation(f"async_close raised {type(out['exc']).__name__}", dict(det, exc=repr(out['exc'])), tag='close-raised')
+    if out['open_eps']:
+        raise Violation('a socket of the instance is still open (and reading) after async_close() had returned',
+                        dict(det, open=out['open_eps']), tag='socket-open-after-close')
+    if out['plain_after']:
+        raise Violation('RecordUpdateListener.async_update_records called after async_close had returned',
+                        dict(det, calls=len(out['plain_after'])), tag='listener-after-close')
+    if out['cb_after']:
+        raise Violation('browser callback fired after async_close had returned', dict(det, n=len(out['cb_after'])), tag='callback-after-close')
+    if out['sent_after']:
+        raise Violation('victim transmitted after async_close had returned', dict(det, n=len(out['sent_after'])), tag='send-after-close')
+    if errors:
+        raise Violation('exception reached the event loop: ' + str(errors[0].get('exception')), dict(det, errors=errors[:2]),
+                        tag='loop-exception:' + str(errors[0].get('type')))
+    return {'nontrivial': not out['started_at_close'], 'classes': ['close-before-the-engine-has-started' if not out['started_at_close']
+                                                                    else 'close-right-after-start'],
+            'max': {'ops': 0}, 'sample': {'case': case}}
+
+
 def strategy(tier: str):
     from props.c17_threads import threaded_scenario
 
     # about one case in sixty runs real threads in (compressed) real time: Zeroconf() with its own loop thread, closed with
     # close() from another thread (see props/c17_threads.py); everything else runs in virtual time
-    return st.sampled_from([False] * 59 + [True]).flatmap(lambda th: threaded_scenario() if th else scenario())
+    return st.sampled_from(['sim'] * 55 + ['early'] * 4 + ['threads']).flatmap(
+        lambda k: threaded_scenario() if k == 'threads' else early_scenario() if k == 'early' else scenario())
 
 
 def FLAKY_IS_VIOLATION(case: Any) -> bool:
@@ -338,6 +414,8 @@ ALLOWED_EXC = ('NotRunningException', 'NonUniqueNameException')
 
 
 def check(case: Dict[str, Any]) -> Dict[str, Any]:
+    if case.get('kind') == 'early':
+        return check_early(case)
     if case.get('kind') == 'threaded':
         from props.c17_threads import check_threaded
 
